@@ -5,6 +5,7 @@ CHECK = {
         suite("env", "c15", 1500, 60000, stdin=True, args=["-suite", "env"]),
         suite("src", "c15", 600, 8000, stdin=True, args=["-suite", "src"]),
         suite("val", "c15", 800, 20000, stdin=True, args=["-suite", "val"]),
+        suite("ident", "c15", 400, 6000, stdin=True, args=["-suite", "ident"]),
     ],
     "gen": [{"pkg": "extract_c15", "out": "lean/ClusterVerif/Gen/C15.lean"}],
     "lean_sources": ["ClusterVerif/Model/C15.lean", "ClusterVerif/Spec/C15.lean", "ClusterVerif/Gen/C15.lean"],
